@@ -10,7 +10,39 @@ use serde_json::json;
 
 /// strictly increasing abscissae
 fn abscissae(r: &mut Rng, n: usize) -> (Vec<f64>, &'static str) {
-    let (mut xs, name): (Vec<f64>, &'static str) = match r.below(8) {
+    let (mut xs, name): (Vec<f64>, &'static str) = match r.below(10) {
+        8 if n >= 2 => {
+            // almost regular grid: spacings within a relative 1e-14 .. 1e-7 of one another (clock jitter, a nudged knot)
+            let h = r.pick(&[1.0, 0.5, 0.1, 3.0, 1e-3]) * if r.chance(0.3) { r.uniform(0.5, 2.0) } else { 1.0 };
+            let x0 = if r.chance(0.5) { 0.0 } else { r.uniform(-10.0, 10.0) };
+            let eps = 10f64.powf(r.uniform(-14.0, -7.0));
+            let all = r.chance(0.5);
+            let one = r.usize(0, n - 1);
+            ((0..n).map(|i| x0 + i as f64 * h * if all || i == one { 1.0 + eps * r.uniform(-1.0, 1.0) } else { 1.0 }).collect(), "almost_regular_grid")
+        }
+        9 if n >= 3 => {
+            // neighbouring intervals whose widths differ by a factor 1e8 .. 1e13 (a step written as two knots a hair
+            // apart, a repeated sample); the narrow interval starts at x = 0 so that it is resolved exactly
+            let k = r.usize(1, n - 2).min(n - 2);
+            let narrow = 10f64.powf(r.uniform(-13.0, -8.0));
+            let mut left: Vec<f64> = Vec::new();
+            let mut x = 0.0;
+            for _ in 0..k {
+                x -= r.uniform(0.3, 2.0);
+                left.push(x);
+            }
+            left.reverse();
+            let mut v = left;
+            v.push(0.0);
+            v.push(narrow);
+            let mut x = narrow;
+            while v.len() < n {
+                x += r.uniform(0.3, 2.0);
+                v.push(x);
+            }
+            v.truncate(n);
+            (v, "narrow_interval_next_to_wide_ones")
+        }
         0 => ((0..n).map(|i| i as f64).collect(), "integer_grid"),
         1 => {
             let mut x = r.uniform(-5.0, 5.0);
@@ -127,7 +159,7 @@ fn ordinates(r: &mut Rng, xs: &[f64]) -> (Vec<f64>, &'static str) {
 pub fn drive_spline(a: &Args, m: &mut Mon, sink: &mut Sink) {
     let prop = a.prop.clone();
     let tag = if prop == "C05" { "C05" } else { "C04" };
-    m.floors(&["family_x:integer_grid", "family_x:far_from_origin", "family_x:geometric_spacing", "family_x:scaled", "family_y:oscillating", "family_y:plateaux",
+    m.floors(&["family_x:integer_grid", "family_x:far_from_origin", "family_x:geometric_spacing", "family_x:scaled", "family_x:almost_regular_grid", "family_x:narrow_interval_next_to_wide_ones", "family_y:oscillating", "family_y:plateaux",
         "family_y:ramp_into_plateau", "family_y:collinear", "family_y:collinear_plus_noise", "family_y:monotone_increasing", "family_y:signed_zero_plateau", "three_knots", "segments_checked", "very_long_knot_sets"]);
     spline_canaries(m, sink);
     let mut r = Rng::lane(a.seed, tag, a.shard, 0);
